@@ -30,7 +30,7 @@ pub fn gen_ops(src: &mut Src, max_ops: usize, window: u64) -> Vec<SetOp> {
     };
     // Stamps start >= 1 h after the datacake epoch (2023-01-01): the purge cut-off saturates at the
     // epoch, and no real clock can issue earlier stamps.
-    let base = *src.pick(&[5_000u64, 3_700, 4_000, 1_000_000, (1u64 << 32) - 1 - 3_600]);
+    let base = *src.pick(&[5_000u64, 3_700, 4_000, 1_000_000, (1u64 << 32) - 1 - 3_600, 10, 3_000]);
     let mut sg = StampGen::new(base, window, nodes);
     let mut ops = vec![];
     for _ in 0..n {
